@@ -751,8 +751,7 @@ class WCls:
             if v == 0:
                 sel = "c.chooses({0: %s, 1: %s, 2: %s_S()})" % (D, self._other(), n)
             else:
-                sub += ["%s_O = (%s, %s, %s_S())" % (n, D, self._other(), n), ""]
-                sel = "lambda pkt, **k: %s_O[pkt.c]" % n
+                sel = "lambda pkt, _o=(%s, %s, %s_S()), **k: _o[pkt.c]" % (D, self._other(), n)
             body = ["    c = Int(1)", "    d = Ref(%s, default=b'')" % sel]
         elif self.shape == "moved":
             mv = [".at(c)", ".shift(c)", ".at(3)", ".shift(1)", ".at(c, 'begins')"][v]
@@ -765,8 +764,8 @@ class WCls:
 
 def wrapped_specs(shard=0):
     """[(group_key, [WCls x 3 option sets])]; the variant of a shape rotates over (mode, include, window)."""
-    groups, n, rot = [], 0, shard
-    for mid in WRAP_MODE_IDS:
+    groups, n = [], 0
+    for mi, mid in enumerate(WRAP_MODE_IDS):
         mode = MODE_BY_ID[mid]
         incls = [False] if mode.kind == "sized" else [False, True]
         for shape, nvar in SHAPES.items():
@@ -776,10 +775,9 @@ def wrapped_specs(shard=0):
                 windows = [(None, 3), (2, None)]
             else:
                 windows = [(W, {None: 3, 0: 2, 2: 5, 4: 2}[W]) for W in WRAP_WINDOWS[shape]]
-            for incl in incls:
-                for W, Wsub in windows:
-                    variant = rot % nvar
-                    rot += 1
+            for ii, incl in enumerate(incls):
+                for wi, (W, Wsub) in enumerate(windows):
+                    variant = (mi + ii + wi + shard) % nvar      # every (window, variant) pair meets some mode
                     members = []
                     for opt in OPTSETS:
                         members.append(WCls("X%d" % n, shape, variant, mode, incl, W, Wsub, opt))
@@ -1419,6 +1417,44 @@ def run(run):
     finally:
         forget(module or [])
         common.drop_scratch(scratch)
+    if run.counters["violations"] > 40:
+        return
+    # the same field carried by .when / .repeated / Ref(Sub) / run-time selector / .at / .shift
+    if run.tier == "quick":
+        run_wrapped(run, PacketError, n_shared=8, n_private=4, n_fresh=2)
+    else:
+        run_wrapped(run, PacketError, n_shared=14, n_private=8, n_fresh=3)
+
+
+def _replay_wrapped(run, w, PacketError):
+    from .. import common
+    spec = w["spec"]
+    wc = WCls("XReplay", spec["shape"], spec["variant"], MODE_BY_ID[spec["mode"]], spec["incl"], spec["W"],
+              spec["Wsub"], spec["opt"])
+    scratch = common.scratch_dir("bvf_c06r_")
+    mods = []
+    try:
+        mods = define_wrapped([(None, [wc])], scratch)
+        raw = common.from_json(w.get("raw"))
+        if w.get("op") == "pack" and raw is None:
+            values = common.from_json(w["values"])
+
+            def build(x):
+                if isinstance(x, dict):
+                    return wc.subcls(s1=x["s1"], d=x["d"])
+                if isinstance(x, list) and x and isinstance(x[0], dict):
+                    return [build(i) for i in x]
+                return x
+            want = common.from_json(w["expected"])
+            if isinstance(want, list):
+                want = tuple(want)
+            check_wrapped_pack(run, wc, wc.cls(**{k: build(x) for k, x in values.items()}), want, values, [],
+                               "replay")
+        else:
+            check_wrapped(run, wc, raw, "replay", PacketError)
+    finally:
+        forget(mods)
+        common.drop_scratch(scratch)
 
 
 def replay(run, rec):
@@ -1427,6 +1463,11 @@ def replay(run, rec):
     from bisturi.packet import PacketError
     w = rec["witness"]
     spec = w["spec"]
+    if "shape" in spec:
+        _replay_wrapped(run, w, PacketError)
+        if not run.violations:
+            print("replay: the recorded case did not produce a violation on this tree")
+        return
 
     def unb(x):
         if isinstance(x, dict) and "__bytes__" in x:
